@@ -260,6 +260,15 @@ def _compare_geo(inp, io, mo):
                              affinity_what="the geometric affinity (intersection over union) of the paired sound events")
 
 
+def _gshow(g):
+    """coordinates for a message: short rationals as they are, long ones (exact values of decimal floats) as floats"""
+    def show(x):
+        if isinstance(x, (list, tuple)):
+            return [show(v) for v in x]
+        return x if len(str(x)) <= 12 else repr(float(frac(x)))
+    return show(g["coordinates"] if isinstance(g, dict) else g)
+
+
 def _judge_clip(ctx, clip, pe, ae, matches):
     """'a prediction is paired with an annotation only if their geometries overlap', decided without the
     library's affinity: end-point comparisons in Lean (C08_judge_sound) where a closed form exists, a direct
@@ -281,9 +290,8 @@ def _judge_clip(ctx, clip, pe, ae, matches):
             return f"a sound event without geometry is paired (clip {clip} match {(i, j)})"
         g1, g2 = pe[i]["geom"], ae[j]["geom"]
         if v == "disjoint":
-            return (f"paired sound events do not overlap: {_gtype(g1)} {g1 if not isinstance(g1, dict) else g1['coordinates']} and "
-                    f"{_gtype(g2)} {g2 if not isinstance(g2, dict) else g2['coordinates']} share no time-frequency region "
-                    f"(clip {clip} match {(i, j)}, reported affinity {G._fl(x['affinity'])})")
+            return (f"paired sound events do not overlap: {_gtype(g1)} {_gshow(g1)} and {_gtype(g2)} {_gshow(g2)} share no "
+                    f"time-frequency region (clip {clip} match {(i, j)}, reported affinity {G._fl(x['affinity'])})")
         if v == "overlap":
             want = frac(_model(ctx, "affinity_cf", {"tb": rat(tb), "fb": rat(fb), "g1": G.geom_json(g1),
                                                   "g2": G.geom_json(g2)})["affinity"])
@@ -1053,7 +1061,7 @@ def gen_near(rng):
     return _pooled(rng, make)
 
 
-def _match_of(rng, x, buffers=None):
+def _match_of(rng, x, buffers=None, entry=False):
     """a direct call of the matcher on the geometries of one evaluated clip of `x`, with other buffers"""
     ann_by = {c["clip"]: c for c in x["annotations"]}
     cands = [c for c in x["predictions"] if c["clip"] in ann_by]
@@ -1067,6 +1075,10 @@ def _match_of(rng, x, buffers=None):
     tb, fb = buffers or rng.choice(_BUFFER_CHOICES)
     out = {"kind": "match", "src": src, "tgt": tgt, "tb": tb, "fb": fb}
     st = {}
+    if entry and src and tgt:
+        # the sibling entry point on one geometry of each side (it shares whatever state the preparation keeps)
+        out["src"], out["tgt"] = [rng.choice(src)], [rng.choice(tgt)]
+        st["entry"] = "compute_affinity"
     if rng.random() < 0.5:
         st["call"] = rng.choice(["pos", "pos2"])
     if rng.random() < 0.3:
@@ -1080,7 +1092,7 @@ def _match_of(rng, x, buffers=None):
 
 def gen_match(rng):
     x = gen_near(rng) if rng.random() < 0.7 else gen_geo(rng)
-    return _match_of(rng, x) or {"kind": "match", "src": [], "tgt": [], "tb": None, "fb": None}
+    return _match_of(rng, x, entry=rng.random() < 0.3) or {"kind": "match", "src": [], "tgt": [], "tb": None, "fb": None}
 
 
 # ---------------------------------------------------------------- boundaries and sizes (HISTORIES.md 4)
@@ -1147,6 +1159,93 @@ def gen_big(rng, n_pred, n_ann):
                        "tags": G.single_label_scores(rng, vocab)})
         return {"task": "sound_event_detection", "vocab": vocab, "predictions": [{"clip": 7, "events": pe}],
                 "annotations": [{"clip": 7, "events": ae}]}
+    return _pooled(rng, make)
+
+
+# ---------------------------------------------------------------- decimal (non-dyadic) grids: exact touching, one ulp
+def _fx(x):
+    """the float the code will see, as the exact rational the model is told: on a decimal grid 0.1 + 0.5 is not 0.6,
+    and whether two time extents touch, miss or overlap by one ulp is a fact about the floats"""
+    return rat(float(x))
+
+
+def _ulp(x, k):
+    import math
+    x = float(x)
+    for _ in range(abs(k)):
+        x = math.nextafter(x, math.inf if k > 0 else -math.inf)
+    return x
+
+
+def _timed(kind, s, e, f=(1000.0, 2000.0)):
+    """a geometry of the given kind whose time extent is exactly [s, e] (floats)"""
+    lo, hi = f
+    if kind == "TimeInterval":
+        return {"type": "TimeInterval", "coordinates": [_fx(s), _fx(e)]}
+    if kind == "Polygon":
+        return {"type": "Polygon", "coordinates": [[[_fx(s), _fx(lo)], [_fx(e), _fx(lo)], [_fx(e), _fx(hi)], [_fx(s), _fx(hi)],
+                                                   [_fx(s), _fx(lo)]]]}
+    if kind == "MultiPolygon":
+        m = (s + e) / 2
+        tri = lambda a, b: [[[_fx(a), _fx(lo)], [_fx(b), _fx(lo)], [_fx(b), _fx(hi)], [_fx(a), _fx(lo)]]]   # noqa: E731
+        return {"type": "MultiPolygon", "coordinates": [tri(s, m), tri(m, e)]}
+    return [_fx(s), _fx(lo), _fx(e), _fx(hi)]
+
+
+_TIMED_KINDS = ["TimeInterval", "TimeInterval", "BoundingBox", "Polygon", "MultiPolygon"]
+
+
+def _decimal_pair(kp, ka, ps, pe, as_, ae, vocab=(0, 1), ptags=None, atags=None):
+    return {"vocab": list(vocab),
+            "preds": [{"id": 1, "geom": _timed(kp, ps, pe), "tags": ptags if ptags is not None else [[0, "3/4"], [1, "1/8"]]}],
+            "anns": [{"id": 2, "geom": _timed(ka, as_, ae), "tags": atags if atags is not None else [0]}]}
+
+
+def _decimal_sweep(top=10, den=10):
+    """every pair of time extents on the grid k / den (as floats) of which one ends exactly where the other starts:
+    [a, b] and [b, c] for all a < b < c <= top, as two intervals (both orders) and as an interval with a box"""
+    for a in range(top + 1):
+        for b in range(a + 1, top + 1):
+            for c in range(b + 1, top + 1):
+                x, y, z = a / den, b / den, c / den
+                yield _decimal_pair("TimeInterval", "TimeInterval", x, y, y, z)
+                yield _decimal_pair("TimeInterval", "TimeInterval", y, z, x, y)
+                yield _decimal_pair("TimeInterval", "BoundingBox", x, y, y, z)
+                yield _decimal_pair("BoundingBox", "TimeInterval", y, z, x, y)
+
+
+def gen_decimal(rng):
+    """one clip, a time-only geometry against any geometry with an exact time extent, on a decimal grid: touching
+    exactly, one or two ulps apart, one or two ulps over each other, and plain overlaps / gaps; mostly one prediction
+    and one annotation, so that the assignment keeps the pair"""
+    def make(vocab):
+        den = rng.choice([10, 10, 100, 3, 7])
+        pe, ae, nid = [], [], 0
+        for _ in range(rng.choice([1, 1, 1, 2])):
+            a, b, c = sorted(rng.sample(range(0, 4 * den), 3))
+            x, y, z = a / den, b / den, c / den
+            r = rng.random()
+            if r < 0.45:
+                first, second = (x, y), (y, z)                                   # touching exactly
+            elif r < 0.7:
+                k = rng.choice([-2, -1, 1, 2])
+                first, second = (x, y), (max(_ulp(y, k), 0.0), z)                 # k ulps apart (k > 0) / over each other
+            elif r < 0.85:
+                first, second = (x, z), (y, z)                                   # nested, common end
+            else:
+                first, second = (x, y), ((y + z) / 2, z)                         # a plain gap
+            if first[0] >= first[1] or second[0] >= second[1]:
+                first, second = (x, y), (y, z)
+            kinds = [rng.choice(["TimeInterval", "TimeInterval", "BoundingBox"]), rng.choice(_TIMED_KINDS)]
+            rng.shuffle(kinds)
+            if rng.random() < 0.5:
+                first, second = second, first
+            nid += 2
+            pe.append({"id": nid, "geom": _timed(kinds[0], *first), "tags": G.single_label_scores(rng, vocab)})
+            ae.append({"id": nid + 1, "geom": _timed(kinds[1], *second), "tags": G.true_tags(rng, vocab)})
+        c = rng.randint(0, 39)
+        return {"task": "sound_event_detection", "vocab": vocab, "predictions": [{"clip": c, "events": pe}],
+                "annotations": [{"clip": c, "events": ae}]}
     return _pooled(rng, make)
 
 
@@ -1268,6 +1367,9 @@ def _h_variant_kinds(x, rng):
         m = _match_of(rng, x)
         if m is not None:
             out.append(("matcher-call", m))
+    m = _match_of(rng, x, entry=True)
+    if m is not None and (m.get("style") or {}).get("entry"):
+        out.append(("affinity-call", m))
     return out
 
 
@@ -1275,7 +1377,7 @@ def _h_variants(x, rng):
     return [y for _k, y in _h_variant_kinds(x, rng)]
 
 
-H_KINDS = ("vocab", "vocab-twin", "moved", "geometry-dropped", "removed", "added", "retagged", "matcher-call", "buffers")
+H_KINDS = ("vocab", "vocab-twin", "moved", "geometry-dropped", "removed", "added", "retagged", "matcher-call", "affinity-call", "buffers")
 
 
 def _directed_histories(ctx, base, n):
@@ -1637,6 +1739,16 @@ def _stage_boundaries(ctx, n):
     ctx.run_cases(OPS["detection_geo"], near)
 
 
+def _stage_decimal(ctx, n):
+    sweep = list(_decimal_sweep(10, 10)) + (list(_decimal_sweep(12, 100)) if ctx.thorough() else [])
+    ctx.run_cases(OPS["eval_clip"], sweep)
+    ctx.exhaustive["touching time extents"] = (f"{len(sweep)} clips: [a, b] against [b, c] for all a < b < c on the grid k/10 (k <= 10) as "
+                                               "floats, interval / interval in both orders and interval / box: the pair shares no time")
+    cases = [_styled(ctx, gen_decimal(ctx.rng), 0.2) for _ in range(n)]
+    ctx.tally("decimal:cases", len(cases))
+    ctx.run_cases(OPS["detection_geo"], cases)
+
+
 def _stage_sizes(ctx):
     sizes = [(17, 3), (3, 18), (260, 2), (33, 32)] + ([(40, 40), (2, 300), (64, 17)] if ctx.thorough() else [])
     cases = [gen_big(ctx.rng, n, m) for n, m in sizes]
@@ -1764,10 +1876,13 @@ def _triage(ctx):
         except Exception:  # noqa: BLE001
             return None
 
-    for f, io in zip(batch, ios):
+    verdicts = [(f, io, again(f, io) if io is not None else None) for f, io in zip(batch, ios)]
+    # histories are only moved to the front when a plain failure turned out to depend on what ran before it (or
+    # there is no plain failure): a plain input that fails on its own is the smaller replay
+    promote = not plain or any(io is not None and not msg for f, io, msg in verdicts if f.op != "detection_history")
+    for f, io, msg in verdicts:
         if io is None:
             continue
-        msg = again(f, io)
         if f.op != "detection_history":
             if msg:
                 f.detail += " [replay checked: fails in a new interpreter as well]"
@@ -1784,7 +1899,8 @@ def _triage(ctx):
             f.extra = {**(f.extra or {}), "first_seen_as": f.detail[:300]}
             f.detail = msg + " [replay checked: this is what a new interpreter shows]"
             f.impl = io
-            f.size = (lambda f=f: size(f) // 1000)                 # self-contained history: first
+            if promote:
+                f.size = (lambda f=f: size(f) // 1000)             # self-contained history: first
             ctx.tally("triage:self-contained-history")
         else:
             f.size = (lambda f=f: 10 ** 9 + size(f))
@@ -1802,6 +1918,7 @@ def run(ctx):
     ctx.stage("evaluate_clip", _stage_clips, ctx, ctx.budget(800, 12000))
     ctx.stage("pairing", _stage_pairing, ctx, ctx.budget(200, 3000))
     ctx.stage("boundaries", _stage_boundaries, ctx, ctx.budget(300, 4000))
+    ctx.stage("decimal-grids", _stage_decimal, ctx, ctx.budget(300, 4000))
     ctx.stage("sizes", _stage_sizes, ctx)
     ctx.stage("matcher-calls", _stage_match, ctx, ctx.budget(250, 3000))
     # last: direct matcher calls with other buffers inside histories must not colour the plain cases above
@@ -1814,6 +1931,8 @@ def search(ctx, failures):
     ctx.run_cases(OPS["detection"], [gen_detection(ctx.rng) for _ in range(300)])
     ctx.run_cases(OPS["eval_clip"], list(_exhaustive_clips()) + list(_exhaustive_clips(_NEAR_POOL)))
     ctx.run_cases(OPS["detection_geo"], [gen_boundary(ctx.rng) for _ in range(200)])
+    ctx.run_cases(OPS["eval_clip"], list(_decimal_sweep(10, 10)))
+    ctx.run_cases(OPS["detection_geo"], [gen_decimal(ctx.rng) for _ in range(300)])
     ctx.run_cases(OPS["match_call"], [gen_match(ctx.rng) for _ in range(200)])
     ctx.run_cases(OPS["detection_history"], gen_histories(ctx, 120))
     ctx.stage("triage", _triage, ctx)
